@@ -28,8 +28,10 @@ _G = None
 
 
 def _work(args):
-    k, items, outdir = args
+    k, items, outdir = args[:3]
     import msglog_worker as M
+    if len(args) > 3 and M.PEER != args[3]:
+        M.set_peer(args[3])
     path = os.path.join(outdir, 'part_%04d.ndjson' % k)
     drifts, steps = [], 0
     with open(path, 'w') as fh:
@@ -82,6 +84,12 @@ def run(prop, tier, seed):
         chunks = [items[i::procs * 2] for i in range(procs * 2)]
         with mp.get_context('fork').Pool(procs) as pool:
             res = pool.map(_work, [(k, ch, work) for k, ch in enumerate(chunks) if ch])
+        # the same histories with an IPv6 peer whose configured address is spelled in upper case (the handler keys its files
+        # by the lower-cased address); a separate pool: the address is process-wide configuration
+        alt = [(t + 50000000, w, fr) for (t, w, fr) in (items if tier == 'thorough' else items[::3])]
+        chunks2 = [alt[i::procs * 2] for i in range(procs * 2)]
+        with mp.get_context('fork').Pool(procs) as pool:
+            res += pool.map(_work, [(1000 + k, ch, work, '2001:DB8::2') for k, ch in enumerate(chunks2) if ch])
         nd = os.path.join(work, 'all.ndjson')
         with open(nd, 'w') as out:
             for r in res:
@@ -103,6 +111,7 @@ def run(prop, tier, seed):
             sig = {'step': r['pst'], 'arg': r['cls']}
             payload = {'property': PROP, 'kind': 'msglog', 'clause': r['clause'], 'signature': sig,
                        'events': [{'k': x['k'], 'kind': x['kind'], 'cut': x['cut']} for x in ls[1:] if x['i'] <= r['i']],
+                       'peer_address': '2001:DB8::2' if r['tid'] >= 50000000 else '10.0.0.2',
                        'disk_at_rejection': [x['disk'] for x in ls if x.get('i') == r['i']]}
             v.reject(r['clause'], sig, payload, 'trace=%d line=%d extra=%s' % (r['tid'], r['i'], json.dumps(r['extra'])))
         for d in drifts[:5]:
@@ -137,7 +146,7 @@ def run(prop, tier, seed):
                'binding_selftest': {'rejected_as_required': True}, 'exhaustive': False,
                'rule': 'model: TLC exhaustive over histories within the bounds (events incl. non-serialisable payloads, rotation after UPDATE, crash with 4 tail '
                        'classes, orderly stop, restart); code: every edge of that graph replayed on the real DefaultHandler in a scratch directory, torn writes cut '
-                       'at several (thorough: 41) octet offsets; the directory is parsed after every step and audited by TLC'}
+                       'at several (thorough: 41) octet offsets; the directory is parsed after every step and audited by TLC; a third of the histories (thorough: all) is run a second time with an IPv6 peer whose configured address is spelled in upper case'}
         rc = v.finish()
         common.write_evidence(PROP, tier, 'model_checking', cov, ASSUME, violations=len(v.violations))
         return rc
